@@ -24,7 +24,7 @@ Inductive lout :=
   | SOut (o : out)
   | DcpClose | CliClose
   | Returned                     (* Start() returned *)
-  | Died.                        (* the goroutine of Start() panicked inside close() *)
+  | Died.                        (* the goroutine of Start() panicked inside close() (no longer produced: K4 is repaired) *)
 
 Definition souts (l : list out) : list lout := map SOut l.
 
@@ -54,15 +54,23 @@ Definition shutdown (l : lstate) (r1 r2 : bool) : lstate * list lout :=
   if l_down l || s_failed s then (l, [SOut Ignored]) else
   let '(s1, o1) := if l_auto l then final_save s r1 r2 else (s, []) in
   if s_obs_nil s1 then
-    (* a rebalance has closed the stream already: stream.Close walks the cleared observer map (nil) *)
-    (L (set_failed s1) (l_auto l) (l_dcp l) (l_cli l) true, souts (o1 ++ [Callback BeforeStreamStop; Fail]) ++ [Died])
+    (* a rebalance has closed the stream already: stream.Close stops the reopen timer, raises the shutdown flag (the
+       reopen half, should it be running or start later, does nothing) and has nothing left to close (repaired defect K4) *)
+    (L s1 (l_auto l) false false true, souts o1 ++ [DcpClose; CliClose; Returned])
   else
     let '(s2, o2) := step s1 (Close true) in
     (L s2 (l_auto l) false false true, souts (o1 ++ o2) ++ [DcpClose; CliClose; Returned]).
 
+(* once the teardown has run nothing is opened or closed any more: Rebalance() returns at once, the reopen half of a
+   rebalance finds the shutdown flag *)
+Definition inert_when_down (o : op) : bool :=
+  match o with Open _ _ _ | RebOpen _ _ _ | RebClose => true | _ => false end.
+
 Definition lstep (l : lstate) (o : lop) : lstate * list lout :=
   match o with
-  | SOp o' => let '(s', outs) := step (l_s l) o' in (with_s l s', souts outs)
+  | SOp o' =>
+      if l_down l && inert_when_down o' then (l, [SOut Ignored]) else
+      let '(s', outs) := step (l_s l) o' in (with_s l s', souts outs)
   | Shutdown r1 r2 => shutdown l r1 r2
   end.
 
@@ -78,7 +86,7 @@ Definition linit (c : cfg) (auto : bool) (store : fmap doc) : lstate := L (init_
    acknowledgements of contexts handed out earlier, Commit() calls, stale schedule ticks, scrapes, timers.
    Not: Open (only Start and the rebalance call it) and Crash. *)
 Definition late_op (o : op) : bool :=
-  match o with Open _ _ _ | Crash => false | _ => true end.
+  match o with Open _ _ _ | RebOpen _ _ _ | Crash => false | _ => true end.
 
 Definition is_consume (x : lout) : bool := match x with SOut (Consume _ _ _ _ _ _) => true | _ => false end.
 Definition is_openreq (x : lout) : bool := match x with SOut (OpenReq _ _) => true | _ => false end.
